@@ -595,6 +595,83 @@ package rewriter
 //@   ensures[res] res != nil && (res == children || fresh(res)) && BlockInv(res) && ATBL(res) && BodyKind(BOwner(res))
 //@        && (res != children ==> BOwner(res) == kindDelay && EndsOK(children))
 //@   ensures[closed-or-trivial] EndsOK(res) || AllTrivial(res)
+//@   -- S1 (DESIGN §3.6.7): a loop whose post statement yields is emitted as While(cond, Combine(body, post)) (or with the post
+//@   -- appended to the body); a `continue` delivered to that Combine skips its second half, so this is exact only when no
+//@   -- continue targets the loop.
+//@   ensures[local:lowering-S1] !trivalPost ==> !LoopBodyHasContinue(stmt)
 //@   ensures[local:body-closed] BFrozen(res) && BKind(res, BLen(res) - 1) == kindFor ==> EndsOK(body)
 //@   ensures[local:post-closed] EndsOK(postBlock)
 //@   modifies BLen(children), BKLen(children), BStmt(children), BKind(children), BChecked(children), BFrozen(children), AST
+
+// ---------------------------------------------------------------- yield_rewrite.go, pass 3: break / continue targets (C01, C11, C12)
+// Go's rule: break terminates the innermost for, switch or select of the same function; continue the
+// innermost for. The three stacks mirror the traversal (pre pushes, post pops): InLoop/InSwitch are their tops.
+
+//@ extern (*astutil.Cursor).Node(c) (n)
+//@   ensures n == cursorNode(c) && existing(n)
+//@ extern (*astutil.Cursor).Replace(c, n)
+//@   ensures true
+//@ extern (*astutil.Cursor).InsertBefore(c, n)
+//@   ensures true
+
+//@ pred WfBranch(n *ast.BranchStmt) := n != nil && (n.Tok == token.BREAK || n.Tok == token.CONTINUE || n.Tok == token.GOTO || n.Tok == token.FALLTHROUGH)
+
+//@ closure yieldRewriter.rewriteBreakContinues#0 (n) (res)
+//@   captured-inv r != nil && loopStack != nil && switchStack != nil
+//@   requires n != nil && YRCtx(r) && SLen(loopStack) > 0 && SLen(switchStack) > 0
+//@   requires n.Tok == token.BREAK || n.Tok == token.CONTINUE || n.Tok == token.GOTO || n.Tok == token.FALLTHROUGH
+//@   ensures[break-native] n.Tok == token.BREAK && (STop(loopStack) || STop(switchStack)) ==> isnil(res)
+//@   ensures[break-monadic] n.Tok == token.BREAK && !(STop(loopStack) || STop(switchStack)) ==> n.Label == nil && isa(res, ReturnStmt) && !isnil(res)
+//@        && len(as(res, ReturnStmt).Results) == 1 && isa(as(res, ReturnStmt).Results[0], CallExpr)
+//@        && IsSeqCall(as(as(res, ReturnStmt).Results[0], CallExpr), cstBreak)
+//@   ensures[continue-native] n.Tok == token.CONTINUE && STop(loopStack) ==> isnil(res)
+//@   ensures[continue-monadic] n.Tok == token.CONTINUE && !STop(loopStack) ==> n.Label == nil && isa(res, ReturnStmt) && !isnil(res)
+//@        && len(as(res, ReturnStmt).Results) == 1 && isa(as(res, ReturnStmt).Results[0], CallExpr)
+//@        && IsSeqCall(as(as(res, ReturnStmt).Results[0], CallExpr), cstContinue)
+//@   ensures[fallthrough] n.Tok == token.FALLTHROUGH ==> STop(switchStack) && isnil(res)
+//@   ensures[goto-rejected] n.Tok != token.GOTO
+//@   -- S2 (DESIGN §3.6.7): a break that is no longer inside its native target becomes seq.Break, which is right only if
+//@   -- that target was a loop; a break whose target was a switch/select that pass 2 dissolved must complete it normally.
+//@   ensures[lowering-S2] n.Tok == token.BREAK && !(STop(loopStack) || STop(switchStack)) ==> SrcBreakTargetsLoop(n)
+
+//@ closure yieldRewriter.rewriteBreakContinues#2 (c) (ok)
+//@   captured-inv loopStack != nil && switchStack != nil && funcLitStack != nil
+//@   requires c != nil && SLen(loopStack) > 0 && SLen(switchStack) > 0 && SLen(funcLitStack) > 0
+//@   ensures[descend] ok
+//@   ensures[loop] isa(cursorNode(c), ForStmt) || isa(cursorNode(c), RangeStmt) ==> SLen(loopStack) == old(SLen(loopStack)) + 1 && STop(loopStack)
+//@        && SLen(switchStack) == old(SLen(switchStack)) && STop(switchStack) == old(STop(switchStack)) && SLen(funcLitStack) == old(SLen(funcLitStack))
+//@   ensures[switch] isa(cursorNode(c), SwitchStmt) || isa(cursorNode(c), TypeSwitchStmt) || isa(cursorNode(c), SelectStmt) ==> SLen(switchStack) == old(SLen(switchStack)) + 1 && STop(switchStack)
+//@        && SLen(loopStack) == old(SLen(loopStack)) && STop(loopStack) == old(STop(loopStack)) && SLen(funcLitStack) == old(SLen(funcLitStack))
+//@   ensures[funclit] isa(cursorNode(c), FuncLit) ==> SLen(loopStack) == old(SLen(loopStack)) + 1 && !STop(loopStack)
+//@        && SLen(switchStack) == old(SLen(switchStack)) + 1 && !STop(switchStack) && SLen(funcLitStack) == old(SLen(funcLitStack)) + 1
+//@   ensures[other] !(isa(cursorNode(c), ForStmt) || isa(cursorNode(c), RangeStmt) || isa(cursorNode(c), SwitchStmt) || isa(cursorNode(c), TypeSwitchStmt) || isa(cursorNode(c), SelectStmt) || isa(cursorNode(c), FuncLit))
+//@        ==> SLen(loopStack) == old(SLen(loopStack)) && SLen(switchStack) == old(SLen(switchStack)) && SLen(funcLitStack) == old(SLen(funcLitStack))
+//@        && STop(loopStack) == old(STop(loopStack)) && STop(switchStack) == old(STop(switchStack))
+//@   modifies cell(loopStack), cell(switchStack), cell(funcLitStack)
+
+//@ closure yieldRewriter.rewriteBreakContinues#1 (blk)
+//@   reveal wf-ast
+//@   captured-inv r != nil
+//@   requires blk != nil && YRCtx(r) && StmtList(blk.List)
+//@   ensures[drops-at-most-the-last] len(blk.List) == old(len(blk.List)) || len(blk.List) == old(len(blk.List)) - 1
+//@   modifies blk.List
+
+//@ closure yieldRewriter.rewriteBreakContinues#3 (c) (ok)
+//@   reveal wf-ast
+//@   captured-inv r != nil && loopStack != nil && switchStack != nil && funcLitStack != nil && body != nil && StmtList(body.List)
+//@   requires c != nil && YRCtx(r)
+//@   requires isa(cursorNode(c), ForStmt) || isa(cursorNode(c), RangeStmt) ==> SLen(loopStack) > 1
+//@   requires isa(cursorNode(c), SwitchStmt) || isa(cursorNode(c), TypeSwitchStmt) || isa(cursorNode(c), SelectStmt) ==> SLen(switchStack) > 1
+//@   requires isa(cursorNode(c), FuncLit) ==> SLen(loopStack) > 1 && SLen(switchStack) > 1 && SLen(funcLitStack) > 1
+//@   requires SLen(loopStack) > 0 && SLen(switchStack) > 0 && SLen(funcLitStack) > 0
+//@   requires isa(cursorNode(c), BranchStmt) ==> !isnil(cursorNode(c)) && WfBranch(as(cursorNode(c), BranchStmt))
+//@   ensures[descend] ok
+//@   ensures[loop] isa(cursorNode(c), ForStmt) || isa(cursorNode(c), RangeStmt) ==> SLen(loopStack) == old(SLen(loopStack)) - 1
+//@        && SLen(switchStack) == old(SLen(switchStack)) && SLen(funcLitStack) == old(SLen(funcLitStack))
+//@   ensures[switch] isa(cursorNode(c), SwitchStmt) || isa(cursorNode(c), TypeSwitchStmt) || isa(cursorNode(c), SelectStmt) ==> SLen(switchStack) == old(SLen(switchStack)) - 1
+//@        && SLen(loopStack) == old(SLen(loopStack)) && SLen(funcLitStack) == old(SLen(funcLitStack))
+//@   ensures[funclit] isa(cursorNode(c), FuncLit) ==> SLen(loopStack) == old(SLen(loopStack)) - 1
+//@        && SLen(switchStack) == old(SLen(switchStack)) - 1 && SLen(funcLitStack) == old(SLen(funcLitStack)) - 1
+//@   ensures[other] !(isa(cursorNode(c), ForStmt) || isa(cursorNode(c), RangeStmt) || isa(cursorNode(c), SwitchStmt) || isa(cursorNode(c), TypeSwitchStmt) || isa(cursorNode(c), SelectStmt) || isa(cursorNode(c), FuncLit))
+//@        ==> SLen(loopStack) == old(SLen(loopStack)) && SLen(switchStack) == old(SLen(switchStack)) && SLen(funcLitStack) == old(SLen(funcLitStack))
+//@   modifies cell(loopStack), cell(switchStack), cell(funcLitStack), AST
